@@ -239,6 +239,8 @@ func init() {
 		"slices.Reverse": slicesReverse,
 		"sort.Slice":     sortSlice,
 		"math/bits.Len64": bitsLen64,
+		"strings.Join":    stringsJoin,
+		"strings.Fields":  stringsFields,
 	}
 }
 
@@ -476,4 +478,40 @@ func bitsLen64(fv *FuncVer, st *State, ins ssa.Instruction, fn *ssa.Function, ar
 	}
 	_ = fmt.Sprint
 	return c.Name("bitlen", r)
+}
+
+
+// strings.Join: a function of the elements and the separator only. For a
+// literal number of elements the result is spec_strJoin<n>(sep, e0, ..) so
+// that contracts can talk about it (spec func strJoin<n>).
+func stringsJoin(fv *FuncVer, st *State, ins ssa.Instruction, fn *ssa.Function, args []Val, cc *ssa.CallCommon) Val {
+	c := fv.ctx
+	sl := fv.term(args[0])
+	sep := fv.term(args[1])
+	arr := fv.elemArr(st, sl, types.Typ[types.String])
+	if ln := resolve(Field(sl, 2)); ln.IsLit && ln.Int.Int64() <= 32 {
+		fargs := []*Term{sep}
+		for j := int64(0); j < ln.Int.Int64(); j++ {
+			fargs = append(fargs, Select(arr, c.WAdd(Field(sl, 1), c.WLit(j))))
+		}
+		return c.Func(fmt.Sprintf("spec_strJoin%d", ln.Int.Int64()), c.SStr, fargs...)
+	}
+	return c.Func("str.join_", c.SStr, arr, Field(sl, 1), Field(sl, 2), sep)
+}
+
+// strings.Fields: a fresh slice whose length and elements are functions of the
+// string (spec funcs fieldsLen / fieldsAt).
+func stringsFields(fv *FuncVer, st *State, ins ssa.Instruction, fn *ssa.Function, args []Val, cc *ssa.CallCommon) Val {
+	c := fv.ctx
+	s := fv.term(args[0])
+	n := c.Func("spec_fieldsLen", c.W, s)
+	st.assume(c.WLe(c.WLit(0), n))
+	r := fv.newRef(st)
+	key, hs := fv.elemsKey(types.Typ[types.String])
+	content := c.Fresh("fields", hs.Elem)
+	j := BoundVar("j", c.W)
+	st.assume(Forall([]*Term{j}, Eq(Select(content, j), c.Func("spec_fieldsAt", c.SStr, s, j)), Select(content, j)))
+	st.heaps[key] = Store(fv.heap(st, key, hs), r, content)
+	st.assume(fv.sliceBound(c.WLit(0), n))
+	return MkDT(c.SSlice, r, c.WLit(0), n, n)
 }
